@@ -55,7 +55,7 @@ inductive Event where
 
 /-- Everything `Model.Update` writes to the child for one event. -/
 def update (u : Uni) (md : Modes) : Event → Str
-  | .key k => encodeXterm u k md.deckpam md.decckm
+  | .key k => if k.event = EventRelease then [] else encodeXterm u k md.deckpam md.decckm
   | .pasteStart => if md.paste then [27, 91, 50, 48, 48, 126] else []
   | .pasteEnd => if md.paste then [27, 91, 50, 48, 49, 126] else []
   | .mouse m => let (w, r) := handleMouse md m; w ++ r
